@@ -1,4 +1,5 @@
 import Gv.Proofs.BagRect3
+import Gv.Proofs.BagExt
 /-! No operation changes the kind (alignment / plain sequence set) of a container (C01). -/
 namespace Gv.Proofs.BagAbs
 open Gv Gv.Model Gv.Proofs.BagInv
@@ -170,5 +171,30 @@ theorem isAlign_stepOp (b : Bag) (op : Op) : (stepOp b op).1.isAlign = b.isAlign
             · simp at hr
             · simp only [Option.some.injEq] at hr; subst hr; rfl
   | autoAlpha => rfl
+  | revcomp => exact (reverseComplement_fields b).2.2.1
+  | replaceChar name site c =>
+    simp only [stepOp]
+    split
+    · rfl
+    · split
+      · rfl
+      · rename_i r hr
+        exact isAlign_replaceChar name site c b r hr
+  | rmGapSites num den ends =>
+    simp only [stepOp]
+    split
+    · rfl
+    · split
+      · rfl
+      · rename_i r hr
+        exact (removeGapSites_fields hr).2.2.2.1
+  | compress =>
+    simp only [stepOp]
+    split
+    · rfl
+    · split
+      · rfl
+      · rename_i r hr
+        exact (compressBag_fields hr).2.2.2.1
 
 end Gv.Proofs.BagAbs
